@@ -241,7 +241,8 @@ void ezc3d::ParametersNS::Parameters::write(std::fstream &f) const
     // Write each groups
     std::streampos dataStartPosition; // Special parameter in POINT group
     for (size_t i=0; i < nbGroups(); ++i)
-        group(i).write(f, -static_cast<int>(i+1), dataStartPosition);
+        if (!group(i).name().empty()) // unnamed groups only hold the place of an unused group id
+            group(i).write(f, -static_cast<int>(i+1), dataStartPosition);
 
     // Move the cursor to a beginning of a block
     std::streampos actualPos(f.tellg());
